@@ -4,6 +4,7 @@ package gosym
 
 import (
 	"fmt"
+	"os"
 	"sort"
 	"strings"
 	"sync"
@@ -74,6 +75,8 @@ type HarnessResult struct {
 	SolverTime   time.Duration
 	Sat, Unsat   int
 	Unknown      int
+	Fallbacks    int
+	FallbackUnsat int
 	Steps        int64
 	Funcs        map[string]bool
 	ContainedPan map[string]int
@@ -124,6 +127,7 @@ type Explorer struct {
 	Deadline    time.Time
 	Known       []KnownFinding
 	Verbose     bool
+	FallbackMs  int
 	res         *HarnessResult
 
 	mu      sync.Mutex
@@ -165,6 +169,9 @@ func (ex *Explorer) pop() *WorkItem {
 			ex.stack = ex.stack[:n-1]
 			ex.active++
 			ex.started++
+			if ex.Verbose && ex.started%2000 == 0 {
+				fmt.Fprintf(os.Stderr, "  [%s] paths started=%d stack=%d prefixlen=%d\n", ex.Harness, ex.started, len(ex.stack), len(it.Prefix))
+			}
 			return it
 		}
 		if ex.active == 0 {
@@ -249,10 +256,16 @@ func (p *Path) checkWith(extra ...*Term) (SatResult, Model) {
 			r = Unknown
 		}
 	}
-	s.Pop()
 	if r == Unknown {
-		p.inconclusive("solver: unknown/timeout/error on a query")
+		// z3 timed out (or failed): decide the same query with the cvc5
+		// integer-encoding fallback, then restore a fresh z3 with the path's context.
+		r, m = s.Fallback(p.symNames(), p.ex.FallbackMs)
+		if err := s.RestartWithContext(); err != nil || r == Unknown {
+			s.Restart()
+			panic(engineAbort{"solver", "unknown/timeout/error on a query (z3 and cvc5 fallback)"})
+		}
 	}
+	s.Pop()
 	return r, m
 }
 
@@ -280,6 +293,10 @@ func (p *Path) inconclusive(reason string) {
 }
 
 func (p *Path) countDecision() {
+	if p.w.in.spec {
+		// decisions are not allowed while speculating; tryMerge falls back to forking
+		panic(engineAbort{"spec", "decision during speculation"})
+	}
 	p.ndec++
 	if p.ndec > p.ex.MaxDecision {
 		panic(engineAbort{"unwind", fmt.Sprintf("more than %d symbolic decisions on one path (unwinding bound)", p.ex.MaxDecision)})
